@@ -238,7 +238,7 @@ func (cx *threadCtx) doHandle(c fsx.Call) fsx.Res {
 // SetupCalls builds the initial tree.
 var SetupCalls = []fsx.Call{
 	{Op: "Mkdir", A: "/d", Perm: 0o777},
-	{Op: "WriteFile", A: "/d/x", Data: "x", Perm: 0o666},
+	{Op: "WriteFile", A: "/d/x", Data: "xyz", Perm: 0o666}, // three bytes: offsets inside the file exist
 	{Op: "Mkdir", A: "/d/e", Perm: 0o777},
 	{Op: "WriteFile", A: "/d/e/z", Data: "z", Perm: 0o666},
 	{Op: "Link", A: "/d/x", B: "/d/h"},
